@@ -242,6 +242,8 @@ class Repo:
             self._index_defs(mod, mod.tree.body, prefix=mod.name, cls=None)
         from . import alpha
 
+        # extract-helper refactorings are undone first (a helper the validated tree does not have, called once, is inlined)
+        self.inlined = [] if os.environ.get("VERIF_BUILDING_REFERENCE") or os.environ.get("VERIF_NO_INLINE") else alpha.inline_new_helpers(self)
         self.renamed_back = alpha.undo_renames(self)
         # (not while the reference table itself is being regenerated: it must record the tree as written)
         self.folded = [] if os.environ.get("VERIF_BUILDING_REFERENCE") else alpha.fold_new_condition_temps(self)
